@@ -200,6 +200,28 @@ func postDirect(seed uint64, tier string, args []string, w *bufio.Writer) {
 		fmt.Fprintf(w, "DIRECT-FAIL key=post.%s mode=pingpong posts=%d\n", why, 3*pp)
 	}
 	total += 3 * pp
+	// bursts: several goroutines post at the same instant while the loop is dispatching, so that posters queue up on
+	// the lock; once all Post calls have returned every handler must run although no further Post will wake the loop
+	br := 1500
+	if tier == "thorough" {
+		br = 20000
+	}
+	if ok, why := postBurst(br, 12, 4); !ok {
+		fails++
+		fmt.Fprintf(w, "DIRECT-FAIL key=post.%s mode=burst rounds=%d posters=12 per=4\n", why, br)
+	}
+	total += br * 48
+	// posting while the loop goroutine arms and disarms a descriptor: both paths update the pending count
+	ad := 1500 * time.Millisecond
+	if tier == "thorough" {
+		ad = 8 * time.Second
+	}
+	if ok, why, n := postWhileArming(8, ad); !ok {
+		fails++
+		fmt.Fprintf(w, "DIRECT-FAIL key=post.%s mode=post-while-arming posts=%d\n", why, n)
+	} else {
+		total += n
+	}
 	// the library's own cross-goroutine hand-off: AsyncHandshake dials on another goroutine and must deliver the
 	// completion (state change included) through Post, on the loop goroutine
 	ho := 6
@@ -404,6 +426,174 @@ func postPingPong(posters, per int) (bool, string) {
 		return why == "", why
 	case <-time.After(120 * time.Second):
 		return false, "loop-deadlocked"
+	}
+}
+
+// postBurst: per round, `posters` goroutines are released together and post `per` handlers each while the loop goroutine
+// keeps dispatching. After every Post call of the round has returned, all handlers of the round must run within a
+// generous delay: nothing else is going to wake the loop.
+func postBurst(rounds, posters, per int) (bool, string) {
+	result := make(chan string, 1)
+	go func() {
+		runtime.LockOSThread()
+		defer runtime.UnlockOSThread()
+		ioc, err := sonic.NewIO()
+		if err != nil {
+			result <- "newio"
+			return
+		}
+		defer ioc.Close()
+		expected := posters * per
+		for round := 0; round < rounds; round++ {
+			ran := 0 // loop goroutine only
+			handler := func() { ran++ }
+			var wg sync.WaitGroup
+			start := make(chan struct{})
+			var postErr atomic.Value
+			for g := 0; g < posters; g++ {
+				wg.Add(1)
+				go func() {
+					defer wg.Done()
+					<-start
+					for i := 0; i < per; i++ {
+						if err := ioc.Post(handler); err != nil {
+							postErr.Store("post-returned-error")
+						}
+					}
+				}()
+			}
+			returned := make(chan struct{})
+			go func() { wg.Wait(); close(returned) }()
+			close(start)
+			var since time.Time
+			for ran < expected {
+				if err := ioc.RunOneFor(2 * time.Millisecond); err != nil && err != sonicerrors.ErrTimeout {
+					result <- "loop-error"
+					return
+				}
+				select {
+				case <-returned:
+					if since.IsZero() {
+						since = time.Now()
+					} else if time.Since(since) > 400*time.Millisecond {
+						result <- "posted-handler-never-run-loop-not-woken"
+						return
+					}
+				default:
+				}
+			}
+			<-returned
+			if v := postErr.Load(); v != nil {
+				result <- v.(string)
+				return
+			}
+			if ran != expected {
+				result <- "handler-count-not-one"
+				return
+			}
+			if ioc.Pending() != 0 || ioc.Posted() != 0 {
+				result <- "pending-or-posted-not-zero-at-quiescence"
+				return
+			}
+		}
+		result <- ""
+	}()
+	select {
+	case why := <-result:
+		return why == "", why
+	case <-time.After(300 * time.Second):
+		return false, "loop-deadlocked"
+	}
+}
+
+// postWhileArming: goroutines post continuously while the loop goroutine arms a read on an idle FIFO (deferred to the
+// poller: pending + 1) and cancels it (pending - 1) between polls. At the end every handler has run and Pending() and
+// Posted() are exactly zero.
+func postWhileArming(posters int, d time.Duration) (bool, string, int) {
+	result := make(chan string, 1)
+	var posted int64
+	go func() {
+		runtime.LockOSThread()
+		defer runtime.UnlockOSThread()
+		ioc, err := sonic.NewIO()
+		if err != nil {
+			result <- "newio"
+			return
+		}
+		defer ioc.Close()
+		dir, err := os.MkdirTemp("", "verif-post")
+		if err != nil {
+			result <- "tmpdir"
+			return
+		}
+		defer os.RemoveAll(dir)
+		path := dir + "/idle"
+		if err := syscall.Mkfifo(path, 0o600); err != nil {
+			result <- "mkfifo"
+			return
+		}
+		f, err := sonic.Open(ioc, path, os.O_RDONLY|syscall.O_NONBLOCK, 0)
+		if err != nil {
+			result <- "open"
+			return
+		}
+		defer f.Close()
+		wfd, err := syscall.Open(path, os.O_WRONLY|syscall.O_NONBLOCK, 0)
+		if err != nil {
+			result <- "open-writer"
+			return
+		}
+		defer syscall.Close(wfd)
+		var ran int64 // loop goroutine only
+		var stop int32
+		var wg sync.WaitGroup
+		for g := 0; g < posters; g++ {
+			wg.Add(1)
+			go func() {
+				defer wg.Done()
+				for atomic.LoadInt32(&stop) == 0 {
+					if err := ioc.Post(func() { ran++ }); err == nil {
+						atomic.AddInt64(&posted, 1)
+					}
+					if atomic.LoadInt64(&posted)%64 == 0 {
+						runtime.Gosched()
+					}
+				}
+			}()
+		}
+		buf := make([]byte, 8)
+		end := time.Now().Add(d)
+		cancelled := 0
+		for time.Now().Before(end) {
+			for i := 0; i < 50; i++ {
+				f.AsyncRead(buf, func(err error, n int) { cancelled++ })
+				f.Cancel()
+			}
+			_, _ = ioc.PollOne()
+		}
+		atomic.StoreInt32(&stop, 1)
+		wg.Wait()
+		deadline := time.Now().Add(5 * time.Second)
+		for ran < atomic.LoadInt64(&posted) && time.Now().Before(deadline) {
+			_ = ioc.RunOneFor(5 * time.Millisecond)
+		}
+		for i := 0; i < 3; i++ {
+			_, _ = ioc.PollOne()
+		}
+		switch {
+		case ran != atomic.LoadInt64(&posted):
+			result <- "handlers-lost"
+		case ioc.Pending() != 0 || ioc.Posted() != 0:
+			result <- fmt.Sprintf("pending-or-posted-not-zero-at-quiescence")
+		default:
+			result <- ""
+		}
+	}()
+	select {
+	case why := <-result:
+		return why == "", why, int(atomic.LoadInt64(&posted))
+	case <-time.After(d + 60*time.Second):
+		return false, "loop-deadlocked", int(atomic.LoadInt64(&posted))
 	}
 }
 
